@@ -973,6 +973,7 @@ func ruleNoRegress(r *Run, rule string) {
 		if !ok {
 			continue
 		}
+		paths = OwnOnly(paths) // each function is judged on its own assignments; helpers are in the table above or judged themselves
 		type res struct {
 			bad string
 			pos token.Pos
@@ -1264,7 +1265,7 @@ func ruleSkipBlock(r *Run, rule string) {
 		}
 		verdict := ""
 		for ci, e := range p.Ev {
-			if IsCall(e, pkgSM+".skipBlock") || IsCall(e, pkgSM+".isCompleted") {
+			if e.Depth == 0 && (IsCall(e, pkgSM+".skipBlock") || IsCall(e, pkgSM+".isCompleted")) {
 				verdict = UseOfResult(fl, p, ci).Verdict
 			}
 		}
@@ -1496,6 +1497,7 @@ func ruleFixPrologue(r *Run, rule, key string) {
 	if !ok {
 		return
 	}
+	paths = OwnOnly(paths)
 	bad := ""
 	guarded := 0
 	for i := range paths {
